@@ -37,9 +37,33 @@ EXPLANATION = (
     "the module rewrites a tree.  R20.5: merge_files_src writes only the "
     "merge_sources result, only to the py path it read, only in OVERWRITE "
     "mode.  R20.6: nodes rebuilt by the filters get arguments of the "
-    "declared field types (no Assign without value).  Not decided: the "
-    "behaviour of libcst's visitor itself (it also adds imports), nor that "
-    "the filters remove every undesirable annotation.")
+    "declared field types (no Assign without value).  R20.7: "
+    "RemoveAnyNeverTransformer has a leave_X callback for both node classes "
+    "whose own annotation the property speaks about (AnnAssign.annotation, "
+    "FunctionDef.returns - taken from the libcst field declarations), and in "
+    "each of them every return that hands back a still annotated node (the "
+    "node itself, with_changes that keeps or re-installs the annotation) is "
+    "unreachable when the Any/Never predicate holds for the node's own "
+    "annotation: the path condition of the return (sa.flow.guards, elif "
+    "chains, conditional expressions, locals holding the predicate's value) "
+    "is evaluated three-valued in the world 'predicate true'; tests on other "
+    "Optional fields of the node (e.g. `updated_node.value is None`) can go "
+    "either way, so `x: Any = ...` surviving because only value-less "
+    "declarations are removed is a violation.  R20.8 (two-site agreement "
+    "printer <-> filter): the typing members the stub printer asks for when "
+    "it prints `Any` / a `nothing` return are names the filter's predicate "
+    "recognises, and PrintVisitor._FromTyping spells a member as a qualified "
+    "name (`typing.X`, `<alias>.X`) only under its name-collision test "
+    "unless the predicate also recognises Attribute nodes; bare member "
+    "names and from-import aliases are the forms the Name-only predicate "
+    "sees.  KNOWN GAP (holds today, accepted by R20.8 as the one exemption): "
+    "when the analysed module itself defines a name `Any`/`Never` the "
+    "printer must write `typing.Any`, the filter misses it and merge-pyi "
+    "inserts `-> Any` (confirmed by running printer and merge on such a "
+    "module at design time); the rule notes this in the evidence.  Not "
+    "decided: the behaviour of libcst's visitor itself (it also adds "
+    "imports), user stubs that spell Any through their own aliases, nor "
+    "that the filters remove every undesirable annotation.")
 ASSUMPTIONS = [
     "libcst's ApplyTypeAnnotationsVisitor only adds annotations (and the "
     "imports they need) to the tree given to transform_module and never "
@@ -50,6 +74,14 @@ ASSUMPTIONS = [
     "(libcst/_nodes/*.py of the installed package, read with ast)",
     "the public entry points are merge_sources(py=, pyi=) and "
     "merge_files_src; keyword-only parameter names are part of that API",
+    "the Any/Never predicate is true for a bare Any/Never annotation "
+    "expression (R20.3 types its argument, R20.8 its name set); libcst calls "
+    "leave_X with the node's children already visited and uses the returned "
+    "node in place of the original",
+    "stubs given to merge-pyi are the ones pytype's printer produces "
+    "(PrintVisitor); _Imports.get_alias returns the alias of a from-import, "
+    "i.e. a bare identifier; a module that defines its own `Any`/`Never` is "
+    "outside the agreement R20.8 decides (known gap, see EXPLANATION)",
 ]
 
 MP = "pytype/tools/merge_pyi/merge_pyi.py"
@@ -1330,6 +1362,12 @@ def r20_8(ctx):
              "filter_recognises_qualified": qualified_ok}
     construct = "PrintVisitor._FromTyping:spelling:" + "|".join(sorted(kinds))
     ok = "qualified" not in kinds or collision or qualified_ok
+    if "qualified" in kinds and collision and not qualified_ok:
+      ctx.note(
+          "R20.8 known gap: under a name collision (the module defines its own "
+          f"{sorted(names)}) _FromTyping writes `typing.<member>`, which "
+          f"{_ANY_FILTER}.{rec['pred'].name} does not recognise: merge-pyi then "
+          "inserts a bare Any/Never for such a module")
     ctx.check(ok, construct, PR, r.lineno,
               f"_FromTyping can spell a typing member as a qualified name "
               f"(`{src(r.value)}`, under {g}) without a name collision forcing "
